@@ -360,24 +360,25 @@ func (db *DB) Merge() error {
 					}
 				}
 
+				// The scan ends where the file's log ends (as on Open), not at
+				// the SegmentSize of this run: a segment written under a larger
+				// SegmentSize is longer, and the records beyond that offset
+				// would be lost when the file is removed below.
 				if skipEntry {
 					off += entry.Size()
-					if off >= db.opt.SegmentSize {
-						break
-					}
 					continue
 				}
 
 				pendingMergeEntries = db.getPendingMergeEntries(entry, pendingMergeEntries)
 
 				off += entry.Size()
-				if off >= db.opt.SegmentSize {
-					break
-				}
 
 			} else {
 				if err == io.EOF || isTornRecordErr(err) {
 					// as on Open: an incomplete record ends the log of this file
+					break
+				}
+				if off >= db.opt.SegmentSize {
 					break
 				}
 				f.rwManager.Close()
